@@ -154,15 +154,16 @@ def readQueueU (u : UP) (inj : BSt → Nat → BSt) (tsNow : Option Nat) (i : Na
   | fuel + 1, total, s =>
     let th := s.th i
     let r := uRead s.cfg u.follow (th.more.length + 1) th
-    let s1 := (s.setTh i (fun t => (uRead s.cfg u.follow (t.more.length + 1) t).1))
-    let s1 := r.2.2.foldl (fun x p => x.emit (allocNote p)) s1
+    let sR := s.setTh i (fun t => (uRead s.cfg u.follow (t.more.length + 1) t).1)
+    -- every switch of buffers is reported through the notifier (before anything injected at site 3 runs)
+    let note (x : BSt) : BSt := r.2.2.foldl (fun x p => x.emit (allocNote p)) x
     let fin (s : BSt) : BSt := if total ≠ 0 then commitReadU s i else s
-    if !r.2.1 then fin s1 else
+    if !r.2.1 then fin (note sR) else
     match th.qStmts with
-    | [] => fin s1
+    | [] => fin (note sR)
     | st :: rest =>
-      if (match tsNow with | some t => decide (t < st.ts) | none => false) then fin s1 else
-      let s3 := readOneU s1 i st rest
+      if (match tsNow with | some t => decide (t < st.ts) | none => false) then fin (note sR) else
+      let s3 := note (readOneU sR i st rest)
       let s4 := inj s3 3
       let total' := total + st.size
       if total' < qcap0 ∧ (s4.th i).buf.length < s4.cfg.hard then readQueueU u inj tsNow i qcap0 fuel total' s4
